@@ -142,6 +142,9 @@ package schemas
 // Resolving a reference needs the directory of the referring document and the file
 // system; the resolved path is used to READ the file (and as a key for references
 // from it), and only the content read reaches the output.
+//@ func cacheKey@environment
+//@   props C12
+//@   envdep Dir: the directory of the referring document tells equal relative references apart; it keys the cache and never reaches the output
 //@ func QualifiedFileName@environment
 //@   props C12
 //@   envdep Dir EvalSymlinks: a relative reference is resolved against the referring document's directory and through symlinks; the path is used to read the file, only its content reaches the output
@@ -158,10 +161,15 @@ package schemas
 // comes from "y/entry.json". The file must be looked up again (the loader under the
 // cache is consulted with the new referrer); answering from the cache hands the
 // second document the first one's file.
+//@ func GetRefType@callsite
+//@   trusted URL parsing (net/url): the kind of a reference, or an error
+//@   shape results = ("file"; nil) | ("http"; nil) | ("https"; nil) | ("unknown"; error)
+//@   assigns nothing
 //@ func (*CachedLoader).Load@other-directory
 //@   props C10 C20 C03 C12
 //@   option verify-only
 //@   option noframe
+//@   option results-of GetRefType = ("file"; nil)
 //@   option after-call parentURI="x/main.json"
 //@   shape l = new
 //@   shape l.loader = scenarioloader()
